@@ -26,6 +26,9 @@ type RouteSpec struct {
 	// 0 "/a/b" (or "" for the empty path), 1 trailing slash "/a/b/" ("/" for the empty path),
 	// 2 no leading slash "a/b", 3 both "a/b/"
 	PathForm int `json:"path_form,omitempty"`
+	// Late: the route was registered after the WebService's default media types were changed
+	// (it inherits Consumes2/Produces2 instead of Consumes/Produces)
+	Late bool `json:"late,omitempty"`
 }
 
 // ServiceSpec declares one WebService.
@@ -39,6 +42,10 @@ type ServiceSpec struct {
 	// RootForm: 0 "/a/b" ("/" for the empty root), 1 trailing slash "/a/b/", 2 (empty root only)
 	// Path() is never called: the root path is set lazily by Container.Add
 	RootForm int `json:"root_form,omitempty"`
+	// Consumes2/Produces2: the defaults after ws.Consumes(...)/ws.Produces(...) were called a
+	// second time; routes marked Late inherit these. HasLate tells whether that happened at all.
+	Consumes2 []string `json:"consumes2,omitempty"`
+	Produces2 []string `json:"produces2,omitempty"`
 }
 
 // TableSpec is a whole route table.
@@ -75,6 +82,9 @@ func (r ReqSpec) Header(k string) string {
 // EffConsumes is the route's Consumes list after the service default was applied.
 func (s ServiceSpec) EffConsumes(r RouteSpec) []string {
 	if len(r.Consumes) == 0 {
+		if r.Late {
+			return s.Consumes2
+		}
 		return s.Consumes
 	}
 	return r.Consumes
@@ -83,6 +93,9 @@ func (s ServiceSpec) EffConsumes(r RouteSpec) []string {
 // EffProduces is the route's Produces list after the service default was applied.
 func (s ServiceSpec) EffProduces(r RouteSpec) []string {
 	if len(r.Produces) == 0 {
+		if r.Late {
+			return s.Produces2
+		}
 		return s.Produces
 	}
 	return r.Produces
